@@ -19,6 +19,9 @@ from .c06_dense import piece_checks, step_order
 EPS07 = (4 * float(np.finfo(np.float64).eps)) ** 0.7
 
 
+KEY_SHALLOW = "c07.shallow_event_root_near_step_boundary"
+
+
 class Ev:
     """an event function object; only its attributes are read by integrate (handle_events is stubbed)"""
 
@@ -523,15 +526,24 @@ def scenario_e2e(c, inst, props):
     for v in (t0, tf):
         c.assume(v <= 64)
         c.assume(v >= -64)
-    dt0 = tf - t0                      # exactly one step
     alpha = inst["alpha"]
-    lam = c.real("rho")
-    c.assume(lam > 1.0 / 64)
-    c.assume(lam < 63.0 / 64)
-    r = t0 + lam * (tf - t0)
+    near_boundary = bool(inst.get("root_near_inner_boundary"))
+    if near_boundary:
+        # two steps; the crossing lies within 1e-9 of the boundary between them (either side)
+        dt0 = (tf - t0) / 2
+        delta = c.real("delta")
+        c.assume(absval(c, delta) <= 1e-9)
+        c.assume(absval(c, delta) >= 2.0 ** -40)
+        r = t0 + dt0 + delta
+    else:
+        dt0 = tf - t0                      # exactly one step
+        lam = c.real("rho")
+        c.assume(lam > 1.0 / 64)
+        c.assume(lam < 63.0 / 64)
+        r = t0 + lam * (tf - t0)
     dense = inst.get("dense", True)
     rhs = FreshRhs(c, shape, name="f", mode="uf")
-    st, built = run(spans.build_system, c, dict(inst, N=1), t0, tf, dt0, dense, rhs)
+    st, built = run(spans.build_system, c, dict(inst, N=2 if near_boundary else 1), t0, tf, dt0, dense, rhs)
     if st != "ok":
         c.check("%s.e2e.constructs" % min(props).lower(), False, info=repr(built))
         return
@@ -560,9 +572,14 @@ def scenario_e2e(c, inst, props):
     if "C07" in props:
         if not wanted:
             c.check(P + ".crossing_in_unrequested_direction_not_reported", len(rec) == 0, info=dict(alpha=alpha, direction=ev.direction))
-        c.check(P + ".at_most_one_report_per_crossing", len(rec) <= 1, info=dict(n=len(rec)))
+        # (S45, repaired: for a shallow event function the step that does NOT contain the crossing used to get a "root" at its end point,
+        # because |g(end)| <= tol is certified without a sign change; the region key below is not listed in KNOWN_FINDINGS.txt, so it masks nothing)
+        shallow = None
+        if near_boundary:
+            shallow = {KEY_SHALLOW: c.le(abs(alpha) * absval(c, r - (t0 + dt0)), 4 * spans.EPS64 * 1.0001)}
+        c.check(P + ".at_most_one_report_per_crossing", len(rec) <= 1, info=dict(n=len(rec)), regions=shallow)
         for e in rec:
-            c.check(P + ".event_time_is_the_root", c.le(absval(c, e.t - r), tol_x), info=dict(alpha=alpha))
+            c.check(P + ".event_time_is_the_root", c.le(absval(c, e.t - r), tol_x), info=dict(alpha=alpha), regions=shallow)
             c.check(P + ".event_function_vanishes_at_event", c.le(absval(c, alpha * (e.t - r)), abs(alpha) * tol_x))
     if "C09" in props and ev.is_terminal and wanted:
         c.check(P + ".stops_at_event", c.le(absval(c, a.t[-1] - r), tol_x) and
